@@ -37,6 +37,13 @@ type c18Case struct {
 	ListRev  []bool // per reconcile: the settings list is answered in reverse order (cache order is unspecified)
 	Remove   []int  // settings deleted after everything was reconciled; the others are then reconciled again
 	Pending  []int  // settings the setting controller has not reconciled yet when the pods are created (empty status)
+	// third phase (only without Remove / Pending): a further, newer setting arrives after the verdicts stand. It is
+	// reconciled, then every setting is reconciled once more (a resync: "each reconciled against the same cluster
+	// state"), and a reconcile is run again only if it returned an error (retry) or changed its own object (watch
+	// event) - as the work queue would. One read call of the setting controller in this phase may fail.
+	Late      *c18Setting
+	FaultRead int // 0 = none; n = the n-th get/list of the setting controller in the third phase fails
+	FaultKind sim.FaultKind
 }
 
 func (k c18Case) String() string {
@@ -44,7 +51,11 @@ func (k c18Case) String() string {
 	for _, x := range k.Settings {
 		s = append(s, fmt.Sprintf("%s/%s{t=%d sel=%q ref=%q res=%s}", x.NS, x.Name, x.CreatedAt, x.Selector, x.Ref, x.Res))
 	}
-	return fmt.Sprintf("settings=[%s] nodes=%v order=%v listReversed=%v removedAfterwards=%v notYetReconciled=%v", strings.Join(s, " "), k.Nodes, k.Order, k.ListRev, k.Remove, k.Pending)
+	late := ""
+	if k.Late != nil {
+		late = fmt.Sprintf(" lateArrival=%s/%s{sel=%q ref=%q} failingRead=#%d(%s)", k.Late.NS, k.Late.Name, k.Late.Selector, k.Late.Ref, k.FaultRead, k.FaultKind)
+	}
+	return fmt.Sprintf("settings=[%s] nodes=%v order=%v listReversed=%v removedAfterwards=%v notYetReconciled=%v%s", strings.Join(s, " "), k.Nodes, k.Order, k.ListRev, k.Remove, k.Pending, late)
 }
 
 // c18Bad: selectors that cannot be converted (In without values, an unknown operator, an illegal value).
@@ -120,6 +131,13 @@ func c18Draw(rt *rapid.T) c18Case {
 			}
 		}
 	}
+	if len(k.Remove) == 0 && len(k.Pending) == 0 && rapid.Bool().Draw(rt, "lateArrival") {
+		k.Late = &c18Setting{NS: "ns1", Name: "set-late", Selector: rapid.SampledFrom(c18Selectors).Draw(rt, "late-sel"), Ref: rapid.SampledFrom([]string{"foo", "foo", "foo", "bar"}).Draw(rt, "late-ref"), Res: "requests"}
+		if rapid.Bool().Draw(rt, "late-failing-read") {
+			k.FaultRead = rapid.IntRange(1, 3*(n+1)).Draw(rt, "late-failing-read-index")
+			k.FaultKind = rapid.SampledFrom([]sim.FaultKind{sim.FaultReject, sim.FaultRejectTyped}).Draw(rt, "late-failing-read-kind")
+		}
+	}
 	return k
 }
 
@@ -172,8 +190,9 @@ func runC18(k c18Case) (vs []mon.V, err error) {
 	var matches func(s c18Setting, l map[string]string) bool
 	// judge reconciles every setting of the current population twice in the given order and compares the statuses
 	// with the reference verdict
+	eventDriven := false
 	judge := func() (stop bool) {
-		for pass := 0; pass < 2; pass++ {
+		for pass := 0; pass < 2 && !eventDriven; pass++ {
 			for _, i := range k.Order {
 				step = pass*len(k.Order) + 0
 				for pos, j := range k.Order {
@@ -380,11 +399,80 @@ func runC18(k c18Case) (vs []mon.V, err error) {
 			return vs, nil
 		}
 	}
+	if len(vs) == 0 && k.Late != nil && len(k.Remove) == 0 && len(k.Pending) == 0 {
+		mk := func(st c18Setting, idx int) *edsv1.ExtendedDaemonsetSetting {
+			rr := corev1.ResourceRequirements{Requests: corev1.ResourceList{corev1.ResourceCPU: resource.MustParse(fmt.Sprintf("%dm", 101+idx))}}
+			obj := &edsv1.ExtendedDaemonsetSetting{ObjectMeta: metav1.ObjectMeta{Namespace: st.NS, Name: st.Name, CreationTimestamp: metav1.NewTime(c.Now().Truncate(time.Second))},
+				Spec: edsv1.ExtendedDaemonsetSettingSpec{NodeSelector: c18Selector(st.Selector), Containers: []edsv1.ExtendedDaemonsetSettingContainerSpec{{Name: "agent", Resources: rr}}}}
+			if st.Ref != "nil" {
+				obj.Spec.Reference = &autoscalingv1.CrossVersionObjectReference{Kind: "ExtendedDaemonset", Name: st.Ref}
+			}
+			return obj
+		}
+		c.Advance(time.Minute)
+		c.Add(mk(*k.Late, len(k.Settings)))
+		k.Settings = append(k.Settings, *k.Late)
+		reads, hit := 0, ""
+		c.Faults = func(call *sim.Call) sim.FaultKind {
+			if call.Actor != sim.ActorSetting || (call.Verb != "get" && call.Verb != "list") {
+				return sim.FaultNone
+			}
+			reads++
+			if k.FaultRead > 0 && reads == k.FaultRead {
+				hit = call.String()
+				return k.FaultKind
+			}
+			return sim.FaultNone
+		}
+		// one request served the way the work queue serves it: again after an error, again after its own write
+		serve := func(st c18Setting) bool {
+			for i := 0; i < 8; i++ {
+				c.Advance(time.Second)
+				r := c.Reconcile(sim.ActorSetting, st.NS, st.Name)
+				if r.Panic != nil {
+					add("C18/no-panic/"+panicSiteOf(r.Stack), fmt.Sprintf("setting reconcile panicked: %v", r.Panic))
+					return true
+				}
+				wrote := false
+				for _, call := range r.Calls {
+					if call.Write && call.Applied && call.Name == st.Name {
+						wrote = true
+					}
+				}
+				if r.Err == nil && !wrote {
+					return false
+				}
+			}
+			return false
+		}
+		stop := serve(*k.Late)
+		order := append([]int(nil), k.Order...)
+		for _, i := range order {
+			if !stop {
+				stop = serve(k.Settings[i])
+			}
+		}
+		c.Faults = nil
+		if !stop {
+			eventDriven = true
+			k.Order = append(k.Order, len(k.Settings)-1)
+			judge()
+			for i := range vs {
+				vs[i].Sig += "/after-a-late-arrival"
+				if hit != "" {
+					vs[i].Detail += "\nfailing read: " + hit
+				}
+			}
+			if len(vs) == 0 {
+				syncPods("/after-a-late-arrival")
+			}
+		}
+	}
 	return vs, nil
 }
 
 func TestC18Settings(t *testing.T) {
-	rec := evid.New("TestC18Settings", "C18", "population of 1-4 settings in one or two namespaces (creation times equal or different, selectors by labels or expressions incl. an unusable one, reference present/empty/absent/other EDS) x 0-4 labelled nodes x a reconcile order, every setting reconciled twice in that order, optionally some settings are left unreconciled (empty status: they must not influence pods), then optionally some settings are deleted and the others reconciled twice again (the verdict must follow the new population); oracle: malformed => error, overlapping pairs never both valid, well-formed non-overlapping => valid, invalid overlapping => conflict error; then a replica-set sync creates pods whose setting label must name a valid, matching setting of that EDS; non-trivial = two settings overlap on a node, a creation-time tie, or a malformed setting; distinct by case rendering")
+	rec := evid.New("TestC18Settings", "C18", "population of 1-4 settings in one or two namespaces (creation times equal or different, selectors by labels or expressions incl. an unusable one, reference present/empty/absent/other EDS) x 0-4 labelled nodes x a reconcile order, every setting reconciled twice in that order, optionally some settings are left unreconciled (empty status: they must not influence pods), then optionally some settings are deleted and the others reconciled twice again (the verdict must follow the new population), or a further, newer setting arrives after the verdicts stand, is reconciled, and every setting is reconciled once more - in this phase a reconcile is repeated only after an error or a write to its own object (as the work queue does) and one get/list of the setting controller may fail (generic error or ServerTimeout); oracle: malformed => error, overlapping pairs never both valid, well-formed non-overlapping => valid, invalid overlapping => conflict error; then a replica-set sync creates pods whose setting label must name a valid, matching setting of that EDS; non-trivial = two settings overlap on a node, a creation-time tie, or a malformed setting; distinct by case rendering")
 	t.Cleanup(func() {
 		if !t.Failed() {
 			rec.Done()
